@@ -62,6 +62,7 @@ structure AS where
   bucketCap : Nat
   usage : Nat
   max : Nat
+  hi : Nat                     -- ghost: the highest limit that has ever been in force
   nextId : Nat
   ts : List AThread
   log : List (Nat × Bytes × ARes)
@@ -73,6 +74,11 @@ def headId (bs : List ABucket) : Option Nat := bs.head?.map (·.id)
 def succOf : List ABucket → Nat → Option Nat
   | [], _ => none
   | b :: rest, c => if b.id = c then headId rest else succOf rest c
+
+/-- The block the walk visits after `cur` (`none`: the walk has not started). -/
+def nextOf (bs : List ABucket) : Option Nat → Option Nat
+  | none => headId bs
+  | some c => succOf bs c
 
 def findB (bs : List ABucket) (id : Nat) : Option ABucket := bs.find? (fun b => b.id == id)
 
@@ -104,10 +110,7 @@ def step (s : AS) (t : Nat) (spurious : Bool) : Option AS :=
         if x.length = 0 then some (done s t th' x .empty)
         else some { s with ts := s.ts.set t { pc := .walk x none, todo := rest } }
     | .walk x cur =>
-      let nxt := match cur with
-        | none => headId s.buckets
-        | some c => succOf s.buckets c
-      match nxt with
+      match nextOf s.buckets cur with
       | some b => some (setPc s t th (.loadLen x b))
       | none => some (setPc s t th (.growCap x))
     | .loadLen x b =>
@@ -162,8 +165,25 @@ def run (s : AS) : List (Nat × Bool) → AS
     | none => run s rest
 
 def init (cap max : Nat) (programs : List (List Bytes)) : AS :=
-  { buckets := [{ id := 0, cap := cap, len := 0, claims := [] }], bucketCap := cap, usage := cap, max := max, nextId := 1,
+  { buckets := [{ id := 0, cap := cap, len := 0, claims := [] }], bucketCap := cap, usage := cap, max := max, hi := max, nextId := 1,
     ts := programs.map fun p => { pc := .idle, todo := p }, log := [] }
+
+/-- `set_memory_limits` by some thread outside the interning paths: one relaxed store. -/
+def setMax (s : AS) (m : Nat) : AS := { s with max := m, hi := Nat.max s.hi m }
+
+/-- Schedules in which the limit changes while threads are interning. -/
+inductive Ev where
+  | th (t : Nat) (spurious : Bool)
+  | setMax (m : Nat)
+  deriving Repr, Inhabited, DecidableEq
+
+def runE (s : AS) : List Ev → AS
+  | [] => s
+  | .th t sp :: rest =>
+    match step s t sp with
+    | some s' => runE s' rest
+    | none => runE s rest
+  | .setMax m :: rest => runE (setMax s m) rest
 
 def quiescent (s : AS) : Bool := s.ts.all fun th => th.pc == .idle && th.todo.isEmpty
 
